@@ -2,8 +2,13 @@
 (***************************************************************************)
 (* Recorded calls of the real code judged against the Mesh definitions.    *)
 (*   Occ(p,R,q,res)         sorted(M.occurrences_in(q)), M built any way   *)
-(*   Mixed(kind,q,cl,ms,res) q.contains / q.avoids of a mixed list of      *)
-(*                           classical (cl) and mesh (ms) patterns         *)
+(*   Mixed(kind,q,cl,ms,bs,res) q.contains / q.avoids / q.avoids_set of a  *)
+(*                           mixed list of classical (cl), mesh (ms) and   *)
+(*                           bivincular-family (bs: p, X, Y) patterns      *)
+(*   Biv(p,X,Y,q,res)       sorted(B.occurrences_in(q)), B built from the  *)
+(*                           adjacency requirements X (positions) and Y    *)
+(*                           (values) by any of the three constructors, the *)
+(*                           requirements given in any container and order  *)
 (*   Open(id,p,R,q) / Step(id,stop,res)  the lazy iterator protocol: several*)
 (*       searches may be open at once (also on the same pattern object) and *)
 (*       are consumed in any interleaving; each must yield every occurrence *)
@@ -35,13 +40,25 @@ TStep == /\ Ev.op = "Step"
 TOcc == /\ Ev.op = "Occ"
         /\ bad' = IF Ev.res = MOccSeq0(MMesh(Ev.p, ToSetOf(Ev.R)), Ev.q) THEN bad ELSE Flag("MeshOccurrencesExact")
         /\ UNCHANGED its
-MixedValue(kind, q, cl, ms) ==
+AsBiv(b) == MBiv(b.p, ToSetOf(b.X), ToSetOf(b.Y))
+\* the bivincular family: the mesh form and the direct statement through adjacency must agree (a disagreement
+\* is an error of the specification, reported under its own clause), and the recorded listing must be that set
+TBiv == /\ Ev.op = "Biv"
+        /\ LET B == AsBiv(Ev) IN
+           bad' = IF MOcc(B, Ev.q) # MBivOccDirect(Ev.p, ToSetOf(Ev.X), ToSetOf(Ev.Y), Ev.q) THEN Flag("SPEC-BivMeaning")
+                  ELSE IF Ev.res = MOccSeq0(B, Ev.q) THEN bad ELSE Flag("BivincularOccurrencesExact")
+        /\ UNCHANGED its
+MixedValue(kind, q, cl, ms, bs) ==
     IF kind = "contains"
-    THEN (\A i \in DOMAIN cl : PContains(q, cl[i])) /\ (\A i \in DOMAIN ms : MContains(q, AsMesh(ms[i])))
-    ELSE (\A i \in DOMAIN cl : PAvoids(q, cl[i])) /\ (\A i \in DOMAIN ms : MAvoids(q, AsMesh(ms[i])))
+    THEN /\ \A i \in DOMAIN cl : PContains(q, cl[i])
+         /\ \A i \in DOMAIN ms : MContains(q, AsMesh(ms[i]))
+         /\ \A i \in DOMAIN bs : MContains(q, AsBiv(bs[i]))
+    ELSE /\ \A i \in DOMAIN cl : PAvoids(q, cl[i])
+         /\ \A i \in DOMAIN ms : MAvoids(q, AsMesh(ms[i]))
+         /\ \A i \in DOMAIN bs : MAvoids(q, AsBiv(bs[i]))
 TMixed == /\ Ev.op = "Mixed"
-          /\ bad' = IF Ev.res = MixedValue(Ev.kind, Ev.q, Ev.cl, Ev.ms) THEN bad ELSE Flag("MixedListsAgree")
+          /\ bad' = IF Ev.res = MixedValue(Ev.kind, Ev.q, Ev.cl, Ev.ms, Ev.bs) THEN bad ELSE Flag("MixedListsAgree")
           /\ UNCHANGED its
-TNext == l <= Len(Trace) /\ l' = l + 1 /\ (TOcc \/ TMixed \/ TOpen \/ TStep)
+TNext == l <= Len(Trace) /\ l' = l + 1 /\ (TOcc \/ TBiv \/ TMixed \/ TOpen \/ TStep)
 TraceDone == l = Len(Trace) + 1 => PrintT(ToJson([verdict |-> bad, drift |-> <<>>, n |-> Len(Trace)]))
 =============================================================================
